@@ -67,7 +67,8 @@ Setup ==
             /\ rem' = Keep(BB, Q, EE) \ (Q \cup DOMAIN EE)
             /\ aux' = [init |-> NonConst(all), c0 |-> ConstOf(all), ee |-> EE,
                        post |-> Posterior(b, J, Q, ev, VirtWeights(virt)), tot |-> tot,
-                       map |-> MAPSet(b, J, Q, ev, VirtWeights(virt))]
+                       map |-> MAPSet(b, J, Q, ev, VirtWeights(virt)),
+                       jden |-> PostTot(b, J, <<>>, <<>>)]
             /\ UNCHANGED order
     /\ UNCHANGED <<bi, Q, ev, virt>>
 
@@ -115,6 +116,7 @@ FinalOK ==
 Case == [inst |-> b.id, q |-> Q, ev |-> ev, virt |-> virt, order |-> order,
          post |-> {[a |-> q, w |-> aux.post[q]] : q \in DOMAIN aux.post}, tot |-> aux.tot,
          map |-> aux.map,
+         jden |-> aux.jden,        \* total weight of the joint: P(q, ev) = w / jden when there is no virtual evidence
          \* is the moral graph of the pruned (augmented) network connected?  (belief propagation rejects the others)
          bpconn |-> LET K == Keep(B, Q, aux.ee) IN
                     /\ UConnected(BNodes(b), Moral(BEdges(b)))        \* the engine's own clique tree (constructor)
